@@ -77,7 +77,11 @@ func evaluateBitflagExpSigned[T signedInteger](n bitFlagExprNode, opts []EnumOpt
 			if rhs < 0 {
 				return 0, fmt.Errorf("negative shift amount %d in bitflag expression", rhs)
 			}
-			return lhs << rhs, nil
+			// a shift that loses bits or reaches the sign bit has no value in the enum's base type
+			if shifted := lhs << rhs; shifted>>rhs == lhs && (shifted < 0) == (lhs < 0) {
+				return shifted, nil
+			}
+			return 0, fmt.Errorf("%d << %d overflows the enum's base type", lhs, rhs)
 		case tokenKindDoubleCaretRight:
 			if rhs < 0 {
 				return 0, fmt.Errorf("negative shift amount %d in bitflag expression", rhs)
@@ -128,7 +132,11 @@ func evaluateBitflagExprUnsigned[T unsignedInteger](n bitFlagExprNode, opts []En
 		case tokenKindVerticalBar:
 			return lhs | rhs, nil
 		case tokenKindDoubleCaretLeft:
-			return lhs << rhs, nil
+			// a shift that loses bits has no value in the enum's base type
+			if shifted := lhs << rhs; shifted>>rhs == lhs {
+				return shifted, nil
+			}
+			return 0, fmt.Errorf("%d << %d overflows the enum's base type", lhs, rhs)
 		case tokenKindDoubleCaretRight:
 			return lhs >> rhs, nil
 		default:
